@@ -17,7 +17,8 @@ GREP_FILES = ['NumqiModel/Generated/Thresholds20.lean']
 LEVEL = 'proof'
 RULE = ('index tables: every tuple pattern of length <= 4 (<= 5 thorough) exhaustively, dims 1..6; polarised minors on random integer '
         'matrices for every sorted INDEX pattern, r <= 3 (4 thorough); structure-class shuffles on random integer inputs dims 1..5 for '
-        'all seven classes; decision ops on both sides of each threshold. An op is non-trivial when its output is not all zeros/empty; '
+        'all seven classes; level-k vectors (symmetric factor, sub-tuple pieces, Gram matrix) on integer generators k <= 3 (4 thorough) incl. N = 1; '
+        'tripartite matricisations and cut outputs for dimA != dimB != dimC; decision ops on both sides of each threshold. An op is non-trivial when its output is not all zeros/empty; '
         'distinct = distinct op lines.')
 TRUSTED = ['Lean 4.33 kernel', 'axioms: propext, Classical.choice, Quot.sound', 'Lean compiler for the driver executable',
            'harness/c20.py: ast translator for the three certificate comparisons (validated dynamically on both sides of each threshold), '
@@ -1003,7 +1004,8 @@ def probe_planted(ctx):
     from numqi.matrix_space import has_rank_hierarchical_method, detect_real_matrix_subspace_rank_one, is_ABC_completely_entangled_subspace, get_matrix_subspace_example
     rng = np.random.default_rng(ctx.np_seed + 11)
     # (dA, dB, N, rank, k)
-    cases = [(2, 2, 2, 2, 1), (2, 2, 2, 2, 2), (2, 2, 2, 2, 3), (2, 3, 3, 2, 1), (3, 3, 3, 2, 2), (3, 3, 2, 3, 1), (3, 3, 2, 3, 2), (3, 4, 3, 3, 1), (3, 3, 2, 2, 3), (4, 4, 2, 3, 1)]
+    cases = [(2, 2, 2, 2, 1), (2, 2, 2, 2, 2), (2, 2, 2, 2, 3), (2, 3, 3, 2, 1), (3, 3, 3, 2, 2), (3, 3, 2, 3, 1), (3, 3, 2, 3, 2), (3, 4, 3, 3, 1), (3, 3, 2, 2, 3), (4, 4, 2, 3, 1),
+             (3, 4, 2, 3, 2), (4, 4, 2, 3, 2)]     # minors of size 3 inside larger matrices at level 2: repeated generators with multiplicity 3
     if not ctx.quick():
         cases += [(3, 3, 4, 2, 2), (3, 3, 3, 2, 3), (4, 4, 3, 3, 2), (4, 4, 2, 4, 1), (3, 3, 3, 3, 2), (4, 4, 4, 2, 2), (3, 4, 2, 3, 3), (5, 5, 2, 4, 1), (2, 5, 4, 2, 2)]
     reps = 2 if ctx.quick() else 5
